@@ -94,9 +94,28 @@ class Builder:
         B = lambda x: self.build(x, params, mvs)  # noqa: E731
         k, a, sp = node["k"], node["a"], node.get("sp", 0)
         if k == "Int":
+            sp_s = node.get("s", "")
+            if sp_s.startswith("enum:"):
+                return ENUMS[sp_s[5:]]
+            if sp_s.startswith("tmpl:"):
+                return pt.Tmpl.Int(sp_s[5:])
             return pt.Int(undigits(node["n"]))
         if k == "Bytes":
             raw = bytes(node["n"])
+            sp_s = node.get("s", "")
+            if sp_s.startswith("tmpl:"):
+                return pt.Tmpl.Bytes(sp_s[5:])
+            if sp_s.startswith("tmpladdr:"):
+                return pt.Tmpl.Addr(sp_s[9:])
+            if sp_s.startswith("addr:"):
+                return pt.Addr(sp_s[5:])
+            if sp_s.startswith("method:"):
+                return pt.MethodSignature(sp_s[7:])
+            if sp_s.startswith("str:"):
+                return pt.Bytes(sp_s[4:])
+            if sp == 3:
+                import base64
+                return pt.Bytes("base32", base64.b32encode(raw).decode().rstrip("="))
             if sp == 1:
                 return pt.Bytes("base16", raw.hex())
             if sp == 2:
@@ -237,6 +256,12 @@ class Builder:
             return pt.Comment(node["s"], B(a[0]))
         raise ValueError("replay: unknown kind %r" % k)
 
+
+ENUMS = {"NoOp": pt.OnComplete.NoOp, "OptIn": pt.OnComplete.OptIn, "CloseOut": pt.OnComplete.CloseOut,
+         "ClearState": pt.OnComplete.ClearState, "UpdateApplication": pt.OnComplete.UpdateApplication,
+         "DeleteApplication": pt.OnComplete.DeleteApplication, "pay": pt.TxnType.Payment, "keyreg": pt.TxnType.KeyRegistration,
+         "acfg": pt.TxnType.AssetConfig, "axfer": pt.TxnType.AssetTransfer, "afrz": pt.TxnType.AssetFreeze,
+         "appl": pt.TxnType.ApplicationCall}
 
 LEDGER_MV = {
     "AssetBalance": pt.AssetHolding.balance, "AssetFrozen": pt.AssetHolding.frozen,
